@@ -18,6 +18,7 @@ ExemptK == 3000000      \* annual exempt amount 3,000.00
 \* total cost of the 8 shares held: eight times a value with k's own last digits, so that the AVERAGE lands on a
 \* half-penny midpoint whenever k does
 HoldK(k) == LET a == FAbs(k) IN 8 * (a - 100000 * (a \div 100000)) + 8000
+UnitK(k) == LET a == FAbs(k) IN a - 1000 * (a \div 1000)
 
 Laws == \A k \in Values : RoundLaw(k)
 ASSUME Laws
@@ -33,6 +34,9 @@ Emit ==
                             taxable_gbp |-> Gbp(IF k - Loss - ExemptK > 0 THEN k - Loss - ExemptK ELSE 0),
                             d1_gross_gbp |-> GbpBig(CostPounds, k + FeeK), d1_net_gbp |-> GbpBig(CostPounds, k),
                             fee_gbp |-> Gbp(FeeK), cost_gbp |-> GbpBig(CostPounds, 0),
+                            \* the first disposal has three legs (same day 1, 30-day 1, pool 2 shares); the pool leg's cost per share
+                            \* is 1,250,000 pounds + UnitK(k) thousandths (so it lands on a midpoint whenever k does)
+                            unit_k |-> UnitK(k), s104_unit_gbp |-> GbpBig(1250000, UnitK(k)),
                             \* a holding of 8 shares whose total cost is HoldK(k): average cost per share
                             hold_k |-> HoldK(k), hold_avg_gbp |-> GbpRatio(HoldK(k), 8)])>>)
 ASSUME Emit
